@@ -26,11 +26,41 @@ Theorem C20_frame : forall D K n (h : heap D K) a h' a',
 Proof. exact clone_preserves. Qed.
 Print Assumptions C20_frame.
 
+(** assigning to any field of any Schema object of the clone (every one of them lives at a
+    new address, by [C20_disjoint]) leaves every tree of the original heap unchanged *)
+Theorem C20_mutate_clone : forall D K n (h : heap D K) a h' a',
+  clone D K n h a = Some (h', a') ->
+  forall b nd', length h <= b ->
+  forall m x t, abs D K m h x = Some t -> abs D K m (upd D K h' b nd') x = Some t.
+Proof. exact clone_mutate_clone. Qed.
+Print Assumptions C20_mutate_clone.
+
+(** assigning to any field of any Schema object that existed before the call (the whole
+    original tree included) leaves the tree of the clone unchanged *)
+Theorem C20_mutate_original : forall D K n (h : heap D K) a h' a',
+  clone D K n h a = Some (h', a') ->
+  forall b nd', b < length h ->
+  forall m, abs D K m (upd D K h' b nd') a' = abs D K m h' a'.
+Proof. exact clone_mutate_original. Qed.
+Print Assumptions C20_mutate_original.
+
 Example C20_example :
   (* a three-node tree: root -> [x -> leaf; y -> leaf'] ; the clone lives at fresh addresses 3..5 *)
   let h := [mkNode nat nat 10 [(0, 1); (1, 2)]; mkNode nat nat 11 []; mkNode nat nat 12 []] in
   match clone nat nat 5 h 0 with
   | Some (h', a') => a' = 5 /\ length h' = 6 /\ abs nat nat 5 h' a' = abs nat nat 5 h 0 /\ abs nat nat 5 h 0 <> None
+  | None => False
+  end.
+Proof. vm_compute. repeat split. discriminate. Qed.
+
+Example C20_mutate_example :
+  (* scribbling over the original root after cloning: the clone still denotes the old tree *)
+  let h := [mkNode nat nat 10 [(0, 1); (1, 2)]; mkNode nat nat 11 []; mkNode nat nat 12 []] in
+  match clone nat nat 5 h 0 with
+  | Some (h', a') =>
+      abs nat nat 5 (upd nat nat h' 0 (mkNode nat nat 99 [])) a' = abs nat nat 5 h 0 /\
+      abs nat nat 5 (upd nat nat h' 0 (mkNode nat nat 99 [])) 0 <> abs nat nat 5 h 0 /\
+      abs nat nat 5 (upd nat nat h' a' (mkNode nat nat 99 [])) 0 = abs nat nat 5 h 0
   | None => False
   end.
 Proof. vm_compute. repeat split. discriminate. Qed.
